@@ -222,6 +222,14 @@ class FieldCodeGenerator:
                     expression = f'tuple({expression})'
         elif isinstance(field_type, StringType):
             expression = f'"{self._hardcoded_value}"'
+        elif isinstance(field_type, BoolType):
+            if self._hardcoded_value not in ("true", "false"):
+                raise RuntimeError(f'"{self._hardcoded_value}" is not a valid bool value.')
+            expression = "True" if self._hardcoded_value == "true" else "False"
+        elif isinstance(field_type, IntegerType):
+            if not self._hardcoded_value.isdigit():
+                raise RuntimeError(f'"{self._hardcoded_value}" is not a valid integer value.')
+            expression = self._hardcoded_value
         else:
             expression = self._hardcoded_value
 
